@@ -28,7 +28,7 @@ func init() {
 			"(same document, external fragment in same/parent/sibling/child directory, whole file in another directory whose object holds a relative ref, untyped x- extension) × chain length 1..2 × path spellings " +
 			"(x.json, ./x.json, ../d/x.json, d/../x.json, absolute, doubled slash) × root directory depth × entry point (file, data+path, data, http URI); shapes: diamond, self and mutual cycles per kind, " +
 			"callback/path-item cycles, pointer escapes (~0, ~1, ~01 with decoy siblings), dangling (component, file, nil field), wrong kind, scalar target, slash-less fragment, pure $ref cycle, '#', " +
-			"the #29 two-directory layout, kind clash per slot (same document / document loaded through the reference), path-item chains (2..3 hops, across directories, cyclic, to a whole file, through a callback), '#/…' inside whole-file elements per kind, pointers through a header, 3-hop chains per kind; then a seeded random stream of 2..4-file layouts with random components whose child slots are inline values or references to random components by random spelling. " +
+			"histories of 2..3 loads on ONE Loader (a revision whose reference dangles below a referenced component, then the corrected one with the same reference texts; every pair of entry points LoadFromData / LoadFromFile / LoadFromDataWithPath / LoadFromURI; the same root twice; two roots sharing an external document that the first load walked cleanly / left half-walked), null members at loop-element positions (in the root, below a typed target, below an untyped x- target), two documents with one path on two hosts, the #29 two-directory layout, kind clash per slot (same document / document loaded through the reference), path-item chains (2..3 hops, across directories, cyclic, to a whole file, through a callback), '#/…' inside whole-file elements per kind, pointers through a header, 3-hop chains per kind; then a seeded random stream of 2..4-file layouts with random components whose child slots are inline values or references to random components by random spelling. " +
 			"A case is non-trivial when the driver reports at least one branch (it always reports the reference forms, kinds and classes present).",
 		Exhaustive: true,
 		Gen:        genC02,
@@ -42,7 +42,8 @@ func init() {
 			"the in-memory reader resolves a location like a file system (path.Clean before lookup)",
 			"value objects are generated in the marshaller's normal form, so that Value marshals back to the raw object",
 			"IsExternalRefsAllowed = true",
-			"no null members and no parameter with both schema and content are generated (the loader rejects them; below an untyped reference target it swallows the error and leaves the reference unresolved)",
+			"no parameter with both schema and content is generated (the loader rejects it); a document with a null member where an object belongs may be rejected or loaded — when it loads, its references must be resolved",
+			"one in-memory store for all loads of a history (files do not change between the loads); at most one LoadFromData load per history",
 			"RefPath() is not compared (for a reference met first through a backtrack callback it depends on the visiting order)",
 		},
 	})
@@ -230,28 +231,45 @@ func c02Sorted[E any](m map[string]E) []string {
 	return out
 }
 
+// c02Loads: the loads of a case — the short form {entry, root} is a history of one load
+func c02Loads(c hx.Case) [][2]string {
+	ls := jlist(c["loads"])
+	if len(ls) == 0 {
+		return [][2]string{{jstr(c, "entry"), jstr(c, "root")}}
+	}
+	out := [][2]string{}
+	for _, l := range ls {
+		lm, _ := l.(map[string]any)
+		out = append(out, [2]string{jstr(lm, "entry"), jstr(lm, "root")})
+	}
+	return out
+}
+
+// runC02 makes the loads of the case one after the other on ONE Loader
 func runC02(c hx.Case) any {
 	files := map[string][]byte{}
-	var first []byte
+	virtual := map[string][]byte{}
+	short := len(jlist(c["loads"])) == 0
 	for i, f := range jlist(c["files"]) {
 		fm, _ := f.(map[string]any)
 		b, _ := json.Marshal(fm["json"])
-		if i == 0 {
-			first = b
+		key := c02KeyStr(jstr(fm, "path"))
+		if jbool(fm, "virtual") || (short && i == 0 && jstr(c, "entry") == "data") {
+			// a root document given as data: it has no location and is not part of the store
+			virtual[key] = b
+			if short {
+				virtual[""] = b
+			}
+			continue
 		}
-		files[c02KeyStr(jstr(fm, "path"))] = b
+		files[key] = b
 	}
-	entry, root := jstr(c, "entry"), jstr(c, "root")
-	if entry == "data" {
-		// the root document has no location: it is not part of the store
-		delete(files, c02KeyStr(jstr(jlist(c["files"])[0].(map[string]any), "path")))
-	}
-	reads := []string{}
+	reads := 0
 	l := openapi3.NewLoader()
 	l.IsExternalRefsAllowed = true
 	l.ReadFromURIFunc = func(_ *openapi3.Loader, u *url.URL) ([]byte, error) {
-		reads = append(reads, u.String())
-		if len(reads) > 3000 {
+		reads++
+		if reads > 3000 {
 			// "loading always terminates": a legitimate load of these layouts needs a few hundred reads at most
 			panic("C02: more than 3000 file reads: loading does not terminate")
 		}
@@ -260,34 +278,45 @@ func runC02(c hx.Case) any {
 		}
 		return nil, fmt.Errorf("no such file: %s", u)
 	}
-	var doc *openapi3.T
-	var err error
-	switch entry {
-	case "file":
-		doc, err = l.LoadFromFile(root)
-	case "path":
-		u, _ := url.Parse(root)
-		doc, err = l.LoadFromDataWithPath(files[c02KeyStr(root)], u)
-	case "uri":
-		u, _ := url.Parse(root)
-		doc, err = l.LoadFromURI(u)
-	default:
-		doc, err = l.LoadFromData(first)
-	}
-	if err != nil {
-		return map[string]any{"outcome": "err", "error": err.Error(), "refs": map[string]any{}}
-	}
-	o := &c02Obs{refs: map[string]map[string]any{}}
-	o.visit(reflect.ValueOf(doc), map[uintptr]bool{})
-	refs := map[string]any{}
-	for rid, vs := range o.refs {
-		l := []any{}
-		for _, k := range c02Sorted(vs) {
-			l = append(l, vs[k])
+	loads := []any{}
+	for _, ld := range c02Loads(c) {
+		entry, root := ld[0], ld[1]
+		var doc *openapi3.T
+		var err error
+		switch entry {
+		case "file":
+			doc, err = l.LoadFromFile(root)
+		case "path":
+			u, _ := url.Parse(root)
+			doc, err = l.LoadFromDataWithPath(files[c02KeyStr(root)], u)
+		case "uri":
+			u, _ := url.Parse(root)
+			doc, err = l.LoadFromURI(u)
+		default:
+			d, ok := virtual[c02KeyStr(root)]
+			if !ok {
+				d = virtual[""]
+			}
+			doc, err = l.LoadFromData(d)
 		}
-		refs[rid] = l
+		if err != nil {
+			loads = append(loads, map[string]any{"outcome": "err", "error": err.Error(), "refs": map[string]any{}})
+			continue
+		}
+		o := &c02Obs{refs: map[string]map[string]any{}}
+		o.visit(reflect.ValueOf(doc), map[uintptr]bool{})
+		refs := map[string]any{}
+		for rid, vs := range o.refs {
+			lst := []any{}
+			for _, k := range c02Sorted(vs) {
+				lst = append(lst, vs[k])
+			}
+			refs[rid] = lst
+		}
+		loads = append(loads, map[string]any{"outcome": "ok", "refs": refs})
 	}
-	return map[string]any{"outcome": "ok", "refs": refs}
+	last, _ := loads[len(loads)-1].(map[string]any)
+	return map[string]any{"outcome": last["outcome"], "error": last["error"], "refs": last["refs"], "loads": loads}
 }
 
 // ---------------------------------------------------------------- comparison
@@ -332,21 +361,56 @@ func cmpC02(c hx.Case, impl any, reply map[string]any) hx.Verdict {
 	if im == nil || model == nil || spec == nil {
 		return hx.Verdict{IM: false, IS: true, Detail: "missing observation"}
 	}
-	iout := jstr(im, "outcome")
+	v := hx.Verdict{IM: true, IS: true}
 	if _, p := im["panic"]; p {
-		iout = "panic"
+		return hx.Verdict{IM: false, IS: false, Detail: fmt.Sprintf("panic: %v", im["panic"])}
 	}
 	if _, p := im["hang"]; p {
-		iout = "hang"
+		return hx.Verdict{IM: false, IS: false, Detail: "hang"}
 	}
+	il, ml, sl := jlist(im["loads"]), jlist(model["loads"]), jlist(spec["loads"])
+	if len(il) != len(ml) || len(il) != len(sl) {
+		return hx.Verdict{IM: false, IS: true, Detail: fmt.Sprintf("loads: impl %d, model %d, spec %d", len(il), len(ml), len(sl))}
+	}
+	for i := range il {
+		a, _ := il[i].(map[string]any)
+		m, _ := ml[i].(map[string]any)
+		sp, _ := sl[i].(map[string]any)
+		lv := c02CmpLoad(a, m, sp)
+		pre := ""
+		if len(il) > 1 {
+			pre = fmt.Sprintf("load %d of %d: ", i+1, len(il))
+		}
+		if !lv.IM && v.IM {
+			v.IM = false
+			if v.IS {
+				v.Detail = pre + lv.Detail
+			}
+		}
+		if !lv.IS && v.IS {
+			v.IS = false
+			v.Detail = pre + lv.Detail
+		}
+	}
+	if dbg := os.Getenv("C02_DEBUG"); !v.IM && dbg != "" {
+		if f, err := os.OpenFile(dbg, os.O_APPEND|os.O_CREATE|os.O_WRONLY, 0o644); err == nil {
+			fmt.Fprintf(f, "IM %v | %s | case %s\n", reply["excl"], v.Detail, hx.Canon(c))
+			f.Close()
+		}
+	}
+	return v
+}
+
+// one load: implementation vs model, implementation vs specification (which looks at this load's input alone)
+func c02CmpLoad(im, model, spec map[string]any) hx.Verdict {
+	iout := jstr(im, "outcome")
 	v := hx.Verdict{IM: true, IS: true}
 	irefs, _ := im["refs"].(map[string]any)
-	// implementation vs model
 	mout := jstr(model, "outcome")
 	mrefs, _ := model["refs"].(map[string]any)
 	if iout != mout {
 		v.IM = false
-		v.Detail = fmt.Sprintf("outcome: impl %s (%v%v) vs model %s", iout, im["error"], im["panic"], mout)
+		v.Detail = fmt.Sprintf("outcome: impl %s (%v) vs model %s", iout, im["error"], mout)
 	} else if iout == "ok" {
 		for rid, mv := range mrefs {
 			if !sameStrs(c02Set(irefs[rid]), c02Set(mv), true) {
@@ -365,18 +429,14 @@ func cmpC02(c hx.Case, impl any, reply map[string]any) hx.Verdict {
 			}
 		}
 	}
-	if dbg := os.Getenv("C02_DEBUG"); !v.IM && dbg != "" {
-		if f, err := os.OpenFile(dbg, os.O_APPEND|os.O_CREATE|os.O_WRONLY, 0o644); err == nil {
-			fmt.Fprintf(f, "IM %v | %s | case %s\n", reply["excl"], v.Detail, hx.Canon(c))
-			f.Close()
-		}
-	}
-	// implementation vs specification
 	srefs, _ := spec["refs"].(map[string]any)
 	if jbool(spec, "ok") {
 		if iout != "ok" {
-			v.IS = false
-			v.Detail = fmt.Sprintf("every reference designates an object, but load gave %s (%v%v)", iout, im["error"], im["panic"])
+			// a document with a null member where an object belongs may be rejected; a well-formed one may not
+			if !jbool(spec, "malformed") {
+				v.IS = false
+				v.Detail = fmt.Sprintf("every reference designates an object, but load gave %s (%v)", iout, im["error"])
+			}
 		} else {
 			for _, rid := range c02Sorted(srefs) {
 				if _, seen := irefs[rid]; !seen {
@@ -565,10 +625,12 @@ func c02TopName(kind, name string) string {
 }
 
 type c02Layout struct {
-	entry string
-	root  string
-	order []string
-	files map[string]jm
+	entry   string
+	root    string
+	order   []string
+	files   map[string]jm
+	loads   [][2]string     // a history on one Loader (empty: the single load entry/root)
+	virtual map[string]bool // root documents handed over as data: not part of the store
 }
 
 func newLayout(entry, root string) *c02Layout {
@@ -597,7 +659,18 @@ func (l *c02Layout) raw(p string, obj jm) {
 func (l *c02Layout) toCase() hx.Case {
 	fs := []any{}
 	for _, p := range l.order {
-		fs = append(fs, map[string]any{"path": p, "json": l.files[p]})
+		f := map[string]any{"path": p, "json": l.files[p]}
+		if l.virtual[p] {
+			f["virtual"] = true
+		}
+		fs = append(fs, f)
+	}
+	if len(l.loads) > 0 {
+		ls := []any{}
+		for _, ld := range l.loads {
+			ls = append(ls, map[string]any{"entry": ld[0], "root": ld[1]})
+		}
+		return hx.Case{"loads": ls, "files": fs}
 	}
 	return hx.Case{"entry": l.entry, "root": l.root, "files": fs}
 }
@@ -963,6 +1036,198 @@ func c02Shapes(emit func(hx.Case)) {
 		emit(l.toCase())
 	}
 	c02ShapesRound3(emit)
+	c02ShapesRound4(emit)
+}
+
+// round 4: histories on one Loader, null members, documents that share a path on two hosts
+func c02ShapesRound4(emit func(hx.Case)) {
+	dir := "/r/a"
+	// the revisions of one document: `broken` has a reference that dangles BELOW a referenced component (so references
+	// are in progress when the load fails), `fixed` adds the missing component, `other` uses the same reference texts
+	rev := func(kind string, fixed bool, id string) jm {
+		d := c02Doc()
+		var back *c02Slot
+		for si := range c02Slots {
+			if c02Slots[si].parent == kind {
+				back = &c02Slots[si]
+				break
+			}
+		}
+		pet := c02Val(kind, "Pet"+id)
+		if back != nil {
+			c02Set2(pet, *back, c02Ref(c02Ptr(back.child, c02TopName(back.child, "Owner")), "owner"))
+			if fixed {
+				c02Put(d, back.child, c02TopName(back.child, "Owner"), c02Val(back.child, "Owner"+id))
+			}
+		}
+		c02Put(d, kind, c02TopName(kind, "Pet"), pet)
+		c02Put(d, kind, c02TopName(kind, "Cat"), c02Ref(c02Ptr(kind, c02TopName(kind, "Pet")), "cat"))
+		return d
+	}
+	entries := []string{"data", "file", "path", "uri"}
+	loc := func(entry, name string) string {
+		if entry == "uri" {
+			return "http://h.example/api/" + name
+		}
+		return dir + "/" + name
+	}
+	hist := func(kind string, steps [][2]string) { // step: entry, revision ("broken" / "fixed" / "fixed2")
+		l := newLayout("file", dir+"/unused.json")
+		delete(l.files, dir+"/unused.json")
+		l.order = nil
+		l.virtual = map[string]bool{}
+		nData := 0
+		for i, st := range steps {
+			name := st[1] + strconv.Itoa(i) + ".json"
+			p := loc(st[0], name)
+			l.raw(p, rev(kind, st[1] != "broken", st[1]))
+			if st[0] == "data" {
+				nData++
+				l.virtual[p] = true
+			}
+			l.loads = append(l.loads, [2]string{st[0], p})
+		}
+		if nData <= 1 {
+			emit(l.toCase())
+		}
+	}
+	for ki, kind := range []string{"schema", "response", "parameter", "requestBody", "pathItem", "callback", "header"} {
+		for i, e1 := range entries {
+			for j, e2 := range entries {
+				if ki > 0 && (i+j+ki)%3 != 0 {
+					continue // every pair of entry points for schemas, a third of them for the other kinds
+				}
+				hist(kind, [][2]string{{e1, "broken"}, {e2, "fixed"}})
+				hist(kind, [][2]string{{e1, "fixed"}, {e2, "fixed2"}})
+			}
+		}
+		hist(kind, [][2]string{{"file", "broken"}, {"path", "fixed"}, {"file", "fixed2"}})
+		hist(kind, [][2]string{{"data", "broken"}, {"path", "broken"}, {"uri", "fixed"}})
+		hist(kind, [][2]string{{"path", "fixed"}, {"file", "broken"}, {"path", "fixed2"}})
+	}
+	// the same root location again: after a success, after a failure
+	for _, broken := range []bool{false, true} {
+		for _, e := range []string{"file", "path"} {
+			l := newLayout("file", dir+"/root.json")
+			l.raw(dir+"/root.json", rev("schema", !broken, "r"))
+			l.loads = [][2]string{{e, dir + "/root.json"}, {e, dir + "/root.json"}}
+			emit(l.toCase())
+		}
+	}
+	// two roots that share an external document: loaded cleanly by the first load / left half-walked by a failed one
+	for _, xBroken := range []bool{false, true} {
+		for _, second := range []string{"B", "A"} {
+			l := newLayout("file", dir+"/root1.json")
+			x := l.file(dir + "/x.json")
+			a := c02Val("schema", "A")
+			if xBroken {
+				c02Set2(a, c02Slots[0], c02Ref("#/components/schemas/Missing", "dangling"))
+			} else {
+				c02Set2(a, c02Slots[0], c02Ref("#/components/schemas/B", "ab"))
+			}
+			c02Put(x, "schema", "A", a)
+			c02Put(x, "schema", "B", c02Val("schema", "B"))
+			c02Put(l.file(dir+"/root1.json"), "schema", "R", c02Ref("x.json#/components/schemas/A", "r1"))
+			c02Put(l.file(dir+"/root2.json"), "schema", "R", c02Ref("x.json#/components/schemas/"+second, "r2"))
+			l.loads = [][2]string{{"file", dir + "/root1.json"}, {"path", dir + "/root2.json"}}
+			emit(l.toCase())
+		}
+	}
+	// null members where a reference-capable object belongs: in the root document (rejected), below a typed
+	// component that a reference points at, and below an untyped (x-) target of a reference
+	nullAt := []struct {
+		kind string
+		path []string
+		arr  bool
+	}{
+		{"schema", []string{"properties", "p"}, false}, {"schema", []string{"allOf"}, true}, {"response", []string{"headers", "h"}, false},
+		{"response", []string{"links", "l"}, false}, {"requestBody", []string{"content", "application/json", "examples", "e"}, false},
+		{"pathItem", []string{"parameters"}, true}, {"pathItem", []string{"get", "responses", "201"}, false},
+		{"parameter", []string{"examples", "e"}, false}, {"header", []string{"content", "application/json", "encoding", "f", "headers", "h"}, false},
+	}
+	for _, na := range nullAt {
+		for _, where := range []string{"root", "typedTarget", "untypedTarget", "externalUntyped"} {
+			l := newLayout("file", dir+"/root.json")
+			v := c02Val(na.kind, "withNull")
+			if na.kind == "header" || na.kind == "parameter" {
+				if na.path[0] == "content" {
+					delete(v, "schema")
+				}
+			}
+			cur := v
+			for i, p := range na.path {
+				if i == len(na.path)-1 {
+					if na.arr {
+						cur[p] = []any{nil}
+					} else {
+						cur[p] = nil
+					}
+					break
+				}
+				nx, ok := cur[p].(jm)
+				if !ok {
+					nx = jm{}
+					cur[p] = nx
+				}
+				cur = nx
+			}
+			r := l.file(dir + "/root.json")
+			switch where {
+			case "root":
+				c02Put(r, na.kind, c02TopName(na.kind, "N"), v)
+			case "typedTarget":
+				c02Put(r, na.kind, c02TopName(na.kind, "N"), v)
+				c02Put(r, na.kind, c02TopName(na.kind, "A"), c02Ref(c02Ptr(na.kind, c02TopName(na.kind, "N")), "r1"))
+			case "untypedTarget":
+				r["x-defs"] = jm{"N": v}
+				c02Put(r, na.kind, c02TopName(na.kind, "A"), c02Ref("#/x-defs/N", "r1"))
+				c02Put(r, na.kind, c02TopName(na.kind, "B"), c02Ref("#/x-defs/N", "r2"))
+			case "externalUntyped":
+				l.file(dir + "/x.json")["x-defs"] = jm{"N": v}
+				c02Put(r, na.kind, c02TopName(na.kind, "A"), c02Ref("x.json#/x-defs/N", "r1"))
+			}
+			emit(l.toCase())
+		}
+	}
+	// 376b90f: a path item file that is itself a reference (to a file in a sub-directory whose parameter is relative
+	// to THAT directory), reached directly and through a fragment hop; and such a file referring to itself
+	for _, hop := range []bool{false, true} {
+		l := newLayout("file", dir+"/root.json")
+		pi := c02Val("pathItem", "p2")
+		c02Set2(pi, c02Slots[17], c02Ref("side.json#/components/parameters/N", "leaf"))
+		l.raw("/r/b/sub/p2.json", pi)
+		l.raw("/r/b/p1.json", jm{"$ref": "sub/p2.json"})
+		c02Put(l.file("/r/b/sub/side.json"), "parameter", "N", c02Val("parameter", "N@sub"))
+		c02Put(l.file("/r/b/side.json"), "parameter", "N", c02Val("parameter", "decoy@b"))
+		c02Put(l.file(dir+"/side.json"), "parameter", "N", c02Val("parameter", "decoy@a"))
+		c02Put(l.file(dir+"/root.json"), "pathItem", "/x", c02Ref("../b/p1.json", "r1"))
+		if hop {
+			c02Put(l.file(dir+"/root.json"), "pathItem", "/y", c02Ref("#/paths/~1x", "r0"))
+		}
+		emit(l.toCase())
+	}
+	{
+		l := newLayout("file", dir+"/root.json")
+		l.raw("/r/b/p1.json", jm{"$ref": "p1.json"})
+		c02Put(l.file(dir+"/root.json"), "pathItem", "/x", c02Ref("../b/p1.json", "r1"))
+		emit(l.toCase())
+	}
+	// documents that share a path on two hosts (the documents cache is keyed by the whole URI)
+	for _, kind := range []string{"schema", "response", "pathItem"} {
+		for _, same := range []bool{false, true} {
+			l := newLayout("uri", "http://a.example/api/root.json")
+			ua, ub := "http://a.example/common/t.json", "http://b.example/common/t.json"
+			c02Put(l.file(ua), kind, c02TopName(kind, "T"), c02Val(kind, "T@a"))
+			if same {
+				c02Put(l.file(ub), kind, c02TopName(kind, "T"), c02Val(kind, "T@b"))
+			} else {
+				c02Put(l.file(ub), kind, c02TopName(kind, "U"), c02Val(kind, "U@b")) // no T on host b: the second reference dangles
+			}
+			c02Put(l.file(l.root), kind, c02TopName(kind, "R1"), c02Ref(ua+c02Ptr(kind, c02TopName(kind, "T")), "r1"))
+			c02Put(l.file(l.root), kind, c02TopName(kind, "R2"), c02Ref(ub+c02Ptr(kind, c02TopName(kind, "T")), "r2"))
+			emit(l.toCase())
+		}
+	}
 }
 
 // shapes added when the model followed the repaired loader (a04fe6c, 9b25d89, f972c33, cbb0d05)
@@ -1234,6 +1499,13 @@ func c02Random(r *hx.Rng) hx.Case {
 		rid++
 		c02Put(l.file(paths[0]), kind, c02TopName(kind, "E"), c02Ref(c02Spell(paths[0], ef, r.Intn(6)), "e"+strconv.Itoa(rid)))
 	}
+	// a history: several documents of the layout loaded one after the other on one Loader
+	if r.Chance(20) {
+		n := 2 + r.Intn(2)
+		for i := 0; i < n; i++ {
+			l.loads = append(l.loads, [2]string{hx.Pick(r, []string{"file", "path"}), hx.Pick(r, paths)})
+		}
+	}
 	return l.toCase()
 }
 
@@ -1260,9 +1532,21 @@ func c02Clone(v any) any {
 func shrinkC02(c hx.Case) []hx.Case {
 	var out []hx.Case
 	files := jlist(c["files"])
-	root := jstr(c, "root")
+	isRoot := map[string]bool{}
+	for _, ld := range c02Loads(c) {
+		isRoot[ld[1]] = true
+	}
+	// a shorter history
+	if ls := jlist(c["loads"]); len(ls) > 1 {
+		for i := range ls {
+			x := cloneCase(c)
+			x["loads"] = append(append([]any{}, ls[:i]...), ls[i+1:]...)
+			out = append(out, x)
+		}
+	}
 	for i, f := range files {
-		if jstr(f.(map[string]any), "path") == root || (jstr(c, "entry") == "data" && i == 0) {
+		fm := f.(map[string]any)
+		if isRoot[jstr(fm, "path")] || jbool(fm, "virtual") || (jstr(c, "entry") == "data" && i == 0) {
 			continue
 		}
 		x := cloneCase(c)
